@@ -250,6 +250,38 @@ func runC16(t *testing.T, cases []map[string]interface{}, ev *vEvents) {
 		if maxSched == 0 {
 			maxSched = 200
 		}
+		if vBool(c, "degraded") {
+			// one after another, not concurrently: the first request is answered, then the primary store stops answering
+			// reads in time (writes still go through) and the second request is served from the offline cache
+			g := newConcWorld(world)
+			vMust(copyDBIntoSQLite(g.w.st.db, g.w.st.cacheDB, "sqlite"))
+			g.prim.mu.Lock()
+			g.prim.sched = nil
+			g.prim.mu.Unlock()
+			g.w.st.remoteDBQueryTimeout = 2 * time.Second
+			r1 := g.w.Do(g.request(ops[0]))
+			g.prim.mu.Lock()
+			g.prim.delayQ = 200 * time.Millisecond
+			g.prim.mu.Unlock()
+			g.w.st.remoteDBQueryTimeout = 40 * time.Millisecond
+			r2 := g.w.Do(g.request(ops[1]))
+			time.Sleep(260 * time.Millisecond)
+			g.prim.mu.Lock()
+			g.prim.delayQ = 0
+			g.prim.mu.Unlock()
+			g.w.st.remoteDBQueryTimeout = 2 * time.Second
+			res := []string{"refused", "refused"}
+			for k, r := range []vResp{r1, r2} {
+				if r.Status >= 200 && r.Status < 400 {
+					res[k] = "ok"
+				}
+			}
+			outs[ci].evs = append(outs[ci].evs, map[string]interface{}{"ev": "Degraded", "case": ci, "world": world, "ops": ops,
+				"schedule": []int{0, 1}, "results": res, "final": g.final(), "race": false, "panic": r1.Panic != "" || r2.Panic != "",
+				"detail": []string{fmt.Sprint(r1.Status), fmt.Sprint(r2.Status)}})
+			g.w.Close()
+			return
+		}
 		seen := map[string]bool{}
 		work := [][]int{{}}
 		for len(work) > 0 && len(seen) < maxSched {
